@@ -365,6 +365,17 @@ class Interp(object):
       v = env.get(test.id)
       if isinstance(v, J):
         t[test.id] = J(v.kinds - {"none"})
+        self._spread(test.id, env, t, f)
+      elif ("__cond__", test.id) in env:
+        # a local holding the outcome of an earlier test: `ok = isinstance(v, dict)` ... `if ok:`
+        return self.refine(env[("__cond__", test.id)], env)
+      return t, f
+    if isinstance(test, ast.Call) and isinstance(test.func, ast.Name) and \
+        test.func.id in self.closures and not test.keywords:
+      # a predicate helper `def h(x): return <test over x>` called on plain names
+      e = _predicate_body(self.closures[test.func.id], test.args)
+      if e is not None:
+        return self.refine(e, env)
       return t, f
     if isinstance(test, ast.Call) and dotted(test.func) == "isinstance" and len(test.args) == 2 \
         and isinstance(test.args[0], ast.Name):
@@ -380,6 +391,7 @@ class Interp(object):
         t[test.args[0].id] = J(v.kinds & kinds)
         # isinstance(x, int) is also true for bools; the false branch keeps what is not covered
         f[test.args[0].id] = J(v.kinds - kinds)
+        self._spread(test.args[0].id, env, t, f)
       return t, f
     if isinstance(test, ast.Compare) and len(test.ops) == 1:
       l, op, r = test.left, test.ops[0], test.comparators[0]
@@ -390,6 +402,7 @@ class Interp(object):
           t[l.id] = J(v.kinds & {"none"}); f[l.id] = J(v.kinds - {"none"})
         elif isinstance(op, (ast.IsNot, ast.NotEq)):
           f[l.id] = J(v.kinds & {"none"}); t[l.id] = J(v.kinds - {"none"})
+        self._spread(l.id, env, t, f)
         return t, f
       # len(v) >= n / len(v) > n  establishes a minimum length
       if isinstance(l, ast.Call) and dotted(l.func) == "len" and len(l.args) == 1 and \
@@ -413,6 +426,19 @@ class Interp(object):
         f[("__has__", text(r), text(l))] = True
         return t, f
     return t, f
+
+  def _spread(self, name, env, t, f):
+    """What a test established for `name` also holds for the locals that are the same value
+    (`b = a` with neither rebound since)."""
+    grp = env.get(("__same__", name))
+    if not grp:
+      return
+    for other in grp:
+      if other != name and isinstance(env.get(other), J):
+        if name in t:
+          t[other] = t[name]
+        if name in f:
+          f[other] = f[name]
 
   # ------------------------------------------------------------------ statements
   def run_body(self, stmts, env):
@@ -550,6 +576,21 @@ class Interp(object):
       for k in [k for k in env if isinstance(k, tuple) and k[0] in ("__has__", "__len__") and
                 k[1] == target.id]:
         del env[k]
+      # ... remembered test outcomes that mention it, and its membership in alias groups
+      for k in [k for k in env if isinstance(k, tuple) and k[0] == "__cond__" and
+                (k[1] == target.id or target.id in _names(env[k]))]:
+        del env[k]
+      for k in [k for k in env if isinstance(k, tuple) and k[0] == "__same__"]:
+        if k[1] == target.id:
+          del env[k]
+        elif target.id in env[k]:
+          env[k] = env[k] - {target.id}
+      if isinstance(value_node, ast.Name) and isinstance(v, J) and value_node.id != target.id:
+        grp = set(env.get(("__same__", value_node.id), {value_node.id})) | {target.id}
+        for nm in grp:
+          env[("__same__", nm)] = frozenset(grp)
+      elif value_node is not None and _is_test(value_node) and isinstance(value_node, ast.expr):
+        env[("__cond__", target.id)] = value_node
     elif isinstance(target, (ast.Tuple, ast.List)):
       for el in target.elts:
         self.assign(el, None, env, value_node)
@@ -568,6 +609,47 @@ class Interp(object):
       self.ev(target.value, env)
 
 
+def _names(e):
+  return {n.id for n in ast.walk(e) if isinstance(n, ast.Name)}
+
+
+def _is_test(e):
+  """An expression whose truth value refine() can interpret (isinstance / None / membership /
+  length tests and their and/or/not combinations)."""
+  if isinstance(e, ast.UnaryOp) and isinstance(e.op, ast.Not):
+    return _is_test(e.operand)
+  if isinstance(e, ast.BoolOp):
+    return all(_is_test(v) or isinstance(v, ast.Name) for v in e.values) and \
+        any(_is_test(v) for v in e.values)
+  if isinstance(e, ast.Call):
+    return dotted(e.func) == "isinstance"
+  return isinstance(e, ast.Compare)
+
+
+def _predicate_body(fdef, args):
+  """For `def h(p...): return <expr>` called with plain names / constants: <expr> with the
+  parameters replaced by the arguments; None otherwise."""
+  import copy
+  body = [x for x in fdef.body if not (isinstance(x, ast.Expr) and
+                                       isinstance(x.value, ast.Constant))]
+  if len(body) != 1 or not isinstance(body[0], ast.Return) or body[0].value is None:
+    return None
+  params = [a.arg for a in fdef.args.args]
+  if len(args) != len(params) or not all(isinstance(a, (ast.Name, ast.Constant)) for a in args):
+    return None
+  sub = dict(zip(params, args))
+  bound = {n.id for n in ast.walk(body[0].value)
+           if isinstance(n, ast.Name) and isinstance(n.ctx, ast.Store)}
+  if bound & set(params):
+    return None
+  class T(ast.NodeTransformer):
+    def visit_Name(self, n):
+      if n.id in sub and isinstance(n.ctx, ast.Load):
+        return copy.deepcopy(sub[n.id])
+      return n
+  return T().visit(copy.deepcopy(body[0].value))
+
+
 def _catches_all(h):
   if h.type is None:
     return True
@@ -575,8 +657,11 @@ def _catches_all(h):
   return any(isinstance(n, ast.Name) and n.id in ("Exception", "BaseException") for n in names)
 
 
-def analyse_function(fnode, sources, qualname):
-  it = Interp(sources, func_name=qualname)
+def analyse_function(fnode, sources, qualname, helpers=None):
+  """helpers: {name: FunctionDef} of same-module functions that may be called with JSON values;
+  they are interpreted at their call sites like local closures (so a guard or an operation that
+  was extracted into a helper is still seen)."""
+  it = Interp(sources, closures=dict(helpers or {}), func_name=qualname)
   env = {}
   it.run_body(fnode.body, env)
   return it.ops
